@@ -7,5 +7,8 @@ OBLIGATIONS = [
   Ob('C12.local', H, 'h_local', tier='quick', unwind=6, defines={'NCOMP': 2}, max_alloc=160, uf_float=True,
      bound='q symbolic 1..30, 2 points x 2 components, float +,-,*,/ abstracted as uninterpreted functions (sound for this equality), ALL float bit patterns for origin, range, the shared point and both variants of the other point',
      covers='AttributeQuantizationTransform::SetParameters/InitTransformedAttribute/TransformAttribute/GeneratePortableAttribute/InverseTransformAttribute on real PointAttributes (2-safety)'),
+  Ob('C12.methods_agree', H, 'h_methods_agree', tier='quick', unwind=6, defines={'NCOMP': 1}, max_alloc=160, uf_float=True,
+     bound='1 point x 1 component, q symbolic 1..30, every float bit pattern for origin, range and the coordinate (UF floats, refined with exact semantics on a counterexample)',
+     covers='AttributeQuantizationTransform::TransformAttribute -> both GeneratePortableAttribute overloads (all points / point id list), Quantizer::Init/QuantizeFloat'),
 ]
 META = {}
